@@ -173,9 +173,8 @@ Hypothesis evolve_dag : forall A, evolve (dag A) = dag (evolve A).
 Lemma solver_state_sound e (A : 'M[R]_n) : sound_a e A ->
   sound_h (solver_state_herm e) (evolve A) /\ solver_state_data = DEvolved.
 Proof.
-rewrite /sound_a /solver_state_herm; move: (fa_h e)=> ah [Ha _]; split=> //.
-case: (p_same_dims e)=> //=.
-by case: ah Ha=> [|[]] //= Ha; rewrite /is_herm -evolve_dag Ha.
+rewrite /sound_a /solver_state_herm; move: (fa_h e)=> ah [Ha _]; split=> //;
+try (case: (p_same_dims e)=> //=; by case: ah Ha=> [|[]] //= Ha; rewrite /is_herm -evolve_dag Ha).
 Qed.
 End Fun.
 
